@@ -25,10 +25,20 @@ package network
 //@   pure
 //@   ensures current != target ==> len(result) >= 2 && soundPath(d, result, current, target)
 
-//@ func (*Driver).determineCurrentPriv
-//@   noverify
+// fits(d, n, prompt): level n's pattern matches the prompt and none of its not-contains strings occurs in it
+//@ spec fits(d *Driver, n string, p string) bool := has(d.PrivilegeLevels, n) && reMatch(get(d.PrivilegeLevels, n).patternRe, p) && !(exists i int :: 0 <= i && i < len(get(d.PrivilegeLevels, n).NotContains) && contains(p, get(d.PrivilegeLevels, n).NotContains[i]))
+// memS(l, s): s occurs in l (uninterpreted; the three axioms are consequences of "exists j :: l[j] == s")
+//@ spec memS(l []string, s string) bool
+//@ axiom #mem-element forall l []string, j int :: {l[j]} 0 <= j && j < len(l) ==> memS(l, l[j])
+//@ axiom #mem-append forall l []string, x string, s string :: {memS(l ++ strs(x), s)} memS(l ++ strs(x), s) <==> (memS(l, s) || s == x)
+//@ axiom #mem-empty forall l []string, s string :: {memS(l, s)} len(l) == 0 ==> !memS(l, s)
+//@ func (*Driver).determineCurrentPriv [C04]
 //@   modifies alloc()
-//@   ensures result.1 == nil ==> len(result.0) >= 1
+//@   loop 1 invariant #every-candidate-is-a-level-that-fits-the-prompt forall j int :: 0 <= j && j < len(possiblePrivs) ==> (exists n string :: fits(d, n, currentPrompt) && get(d.PrivilegeLevels, n).Name == possiblePrivs[j])
+//@   loop 1 invariant #every-level-seen-so-far-that-fits-is-a-candidate forall n string :: {visited(n)} visited(n) && fits(d, n, currentPrompt) ==> memS(possiblePrivs, get(d.PrivilegeLevels, n).Name)
+//@   ensures #candidates-are-exactly-the-levels-that-fit result.1 == nil ==> (forall j int :: 0 <= j && j < len(result.0) ==> (exists n string :: fits(d, n, currentPrompt) && get(d.PrivilegeLevels, n).Name == result.0[j])) && (forall n string :: {has(d.PrivilegeLevels, n)} fits(d, n, currentPrompt) ==> memS(result.0, get(d.PrivilegeLevels, n).Name))
+//@   ensures #at-least-one-candidate-or-a-privilege-error result.1 == nil ==> len(result.0) >= 1
+//@   ensures #no-candidate-is-a-privilege-error result.1 != nil ==> isErr(result.1, util.ErrPrivilegeError) && len(result.0) == 0
 
 // acquired: ghost output of AcquirePriv - the level it reported as reached ("" on failure)
 //@ ghost acquired string
